@@ -19,6 +19,7 @@ inductive ItKind where
 inductive Op where
   | new (x a : Nat) | newn (x n a : Nat) | newv (x n : Nat) (v : Int) (a : Nat)
   | newr (x : Nat) (k : ItKind) (a : Nat) (vs : List Int)
+  | newg (x a : Nat) (vs : List Int)          -- small_vector (count, generator, alloc): the generator yields `vs`
   | newc (x y : Nat) (a : Option Nat) | newm (x y : Nat) (a : Option Nat) | del (x : Nat)
   | pb (x : Nat) (arg : Arg) | pbm (x : Nat) (v : Int)
   | ins (x p : Nat) (arg : Arg) | insm (x p : Nat) (v : Int) | insn (x p n : Nat) (arg : Arg)
@@ -62,7 +63,7 @@ def extSrcs (vs : List Int) : List (Src Int) := vs.map Src.ext
 
 /-- API preconditions (what the real code rejects or leaves undefined is excluded here and nowhere else) -/
 def Op.valid (s : Sys) : Op → Bool
-  | .new x _ | .newn x _ _ | .newv x _ _ _ | .newr x _ _ _ => x < 4 && !s.isAlive x
+  | .new x _ | .newn x _ _ | .newv x _ _ _ | .newr x _ _ _ | .newg x _ _ => x < 4 && !s.isAlive x
   | .newc x y _ | .newm x y _ => x < 4 && y < 4 && x ≠ y && !s.isAlive x && s.isAlive y
   | .del x => s.isAlive x
   | .pb x arg | .rszv x _ arg => s.isAlive x && (match arg with | .ext _ => true | .self i => i < (s.w.hdr x).size)
@@ -92,6 +93,7 @@ def opM (ac : ApiCfg) (s : Sys) : Op → M Int Out
   | .newn x n a => ctorFill ac.cfg x a Gen.ctorCountChecked (List.replicate n (.value 0)) >>= fun _ => pure .none
   | .newv x n v a => ctorFill ac.cfg x a Gen.ctorCountValueChecked (List.replicate n (.ext v)) >>= fun _ => pure .none
   | .newr x .fw a vs => ctorFill ac.cfg x a Gen.ctorForwardRangeChecked (extSrcs vs) >>= fun _ => pure .none
+  | .newg x a vs => ctorFill ac.cfg x a Gen.ctorGeneratorChecked (extSrcs vs) >>= fun _ => pure .none
   | .newr x .inp a vs =>
       ctorDefault x a >>= fun _ =>
       tryCatch (appendRangeInput ac.cfg x false s.nextStream 0 vs >>= fun _ => pure Out.none)
@@ -143,7 +145,7 @@ def Sys.step (ac : ApiCfg) (s : Sys) (op : Op) (faults : List Nat) : Res Sys Out
   | .ok out w =>
       let s' : Sys := { s1 with w := w }
       .ok out (match op with
-        | .new x _ | .newn x _ _ | .newv x _ _ _ | .newr x _ _ _ | .newc x _ _ | .newm x _ _ => setAlive s' x true
+        | .new x _ | .newn x _ _ | .newv x _ _ _ | .newr x _ _ _ | .newg x _ _ | .newc x _ _ | .newm x _ _ => setAlive s' x true
         | .del x => setAlive s' x false
         | _ => s')
   | .thrown e w => .thrown e { s1 with w := w }
@@ -218,7 +220,7 @@ def parseVals (t : String) : Option (List Int) :=
   if t = "-" then some [] else (t.splitOn ",").mapM fun x => x.toInt?
 
 def parseIt : String → Option ItKind
-  | "fw" => some .fw | "in" => some .inp | _ => none
+  | "fw" => some .fw | "in" => some .inp | "ra" => some .fw | _ => none     -- "ra": pointers (random access / contiguous): the header treats them as a forward range whose length is a subtraction
 
 def parseAllocOpt (t : String) : Option (Option Nat) :=
   if t = "-" then some none else t.toNat?.map some
@@ -229,6 +231,7 @@ def parseOp (toks : List String) : Option Op :=
   | ["newn", x, n, a] => do pure (.newn (← cidx x) (← n.toNat?) (← a.toNat?))
   | ["newv", x, n, v, a] => do pure (.newv (← cidx x) (← n.toNat?) (← v.toInt?) (← a.toNat?))
   | ["newr", x, k, a, vs] => do pure (.newr (← cidx x) (← parseIt k) (← a.toNat?) (← parseVals vs))
+  | ["newg", x, a, vs] => do pure (.newg (← cidx x) (← a.toNat?) (← parseVals vs))
   | ["newc", x, y, a] => do pure (.newc (← cidx x) (← cidx y) (← parseAllocOpt a))
   | ["newm", x, y, a] => do pure (.newm (← cidx x) (← cidx y) (← parseAllocOpt a))
   | ["del", x] => do pure (.del (← cidx x))
